@@ -124,6 +124,16 @@ func NewRun(s *Spec, m *Model, faults []rt.Fault, closeFaults []rt.CloseFault) *
 	r.RegErrs = make([]error, len(s.Regs))
 	r.RegPanics = make([]any, len(s.Regs))
 	for i, reg := range s.Regs {
+		if s.RebuildAfter > 0 && i == s.RebuildAfter {
+			func() {
+				defer func() { _ = recover() }()
+				r.Rec.NoLog = true
+				if p, err := r.Coll.Build(); err == nil && p != nil {
+					_ = p.Close()
+				}
+			}()
+			r.Rec.NoLog = false
+		}
 		func() {
 			defer func() {
 				if p := recover(); p != nil {
